@@ -1,14 +1,14 @@
 CONSTANTS
-  Impl = "pktfix"
+  Impl = "intended"
   Codecs = {"h264", "h265"}
-  MTUs = {128}
-  Sizes = {"s", "b"}
-  MaxNals = 3
+  MTUs = {1200}
+  Sizes = {"s", "L255", "L256", "L257", "L300", "L700"}
+  MaxNals = 2
   Openers = {FALSE}
-  Aggs = {TRUE, FALSE}
+  Aggs = {TRUE}
   Types264 = {1, 5, 6, 7, 8}
-  Types265 = {1, 19, 32, 33, 34, 39}
-  Emit = FALSE
+  Types265 = {1, 19, 32, 39}
+  Emit = TRUE
 INIT Init
 NEXT Next
 INVARIANTS Correct TailAlways PktfixExactUnlessAggN EmitVec
